@@ -4650,6 +4650,38 @@ impl<'a> Parser<'a> {
 
         while !self.check(&TokenKind::RBrace) && !self.is_at_end() {
             let start = self.current.span;
+
+            // Call signature `(x: T): R`, `<T>(x: T): R`; construct signature `new (x: T): R`
+            let construct = self.check(&TokenKind::New)
+                && (self.peek_is(&TokenKind::LParen) || self.peek_is(&TokenKind::Lt));
+            if construct {
+                self.advance(); // consume 'new'
+            }
+            if construct || self.check(&TokenKind::LParen) || self.check(&TokenKind::Lt) {
+                let type_parameters = self.parse_optional_type_parameters()?;
+                let params = self.parse_function_params()?;
+                let return_type = self.parse_optional_return_type()?;
+                let span = self.span_from(start);
+                members.push(if construct {
+                    TypeMember::Construct(ConstructSignature {
+                        params,
+                        return_type,
+                        type_parameters,
+                        span,
+                    })
+                } else {
+                    TypeMember::Call(CallSignature {
+                        params,
+                        return_type,
+                        type_parameters,
+                        span,
+                    })
+                });
+                self.match_token(&TokenKind::Semicolon);
+                self.match_token(&TokenKind::Comma);
+                continue;
+            }
+
             let readonly = self.match_token(&TokenKind::Readonly);
 
             // Check for index signature: [key: type]: valueType
